@@ -93,7 +93,7 @@ func (w *World) edgeContradicted(a *absint, at ssa.Instruction, asserted []Fact,
 		if v, isNil, ok := nilFact(f); ok && isNil {
 			rv := stripIface(w.resolveLoad(v))
 			if _, isIface := v.Type().Underlying().(interface{ NumMethods() int }); !isIface || true {
-				if a.definitelyNonNil(rv) || w.presentEntryOfNonNilTable(rv, known) {
+				if a.definitelyNonNil(rv) || w.presentEntryOfNonNilTable(rv, known) || w.rangeValueOfNonNilMap(rv) || w.lookupOfRangedKey(rv) {
 					return true
 				}
 			}
